@@ -383,6 +383,16 @@ theorem single_via_reverse_failure_counterexample :
     · decide +kernel
     · decide
 
+/-- the third source of failure named by `single_via_failures` occurs too: an alternative whose
+junction turn has no entry in the turn-delay table (no search ever evaluated that turn: the via
+vertex was labelled but not expanded) makes `reorient_reverse_route` fail, and with it the query
+the underlying search answers -/
+theorem single_via_retraversal_failure_counterexample :
+    Example.idsOf (Example.missingDelay.fwd.runVertex 0 (some 3) [0, 1, 3]) = .ok [[0, 1]] ∧
+    Example.idsOf (singleVia Example.missingDelay (List.replicate 4 0) simAcceptAll .exact 0 3 2
+      [0, 1, 3] [3, 1, 0] [1, 2]) = .error .access :=
+  Example.missingDelay_runs
+
 /-! ## PART B — Yen's algorithm (`yens_algorithm::run`)
 
 The model (`Model/Ksp.lean`: `yens`, `yenWhile`, `yenFor`, `yenSpur`, `yenScan`) is faithful to the
